@@ -43,7 +43,7 @@ FLAVOURS = {
     },
 }
 
-COMMON_SRC = ["kernel.cpp", "dump.cpp", "monitor.cpp", "ruletable.cpp", "engines.cpp"]
+COMMON_SRC = ["kernel.cpp", "dump.cpp", "monitor.cpp", "ruletable.cpp", "engines.cpp", "importworld.cpp"]
 
 
 def engine_sources():
@@ -260,12 +260,33 @@ def batches_for(prop, tier):
             Batch("equiv", "layout", 3000 if q else 60000, {"planted": 0}, "equiv/random-layouts"),
             Batch("equiv", "layout", 2000 if q else 40000, {"planted": 1}, "equiv/planted-collisions"),
         ]
+    if prop == "C07":
+        return [
+            Batch("import", "asan", 160 * (24 if q else 400), {"sweep": 1}, "import/single-fault-sweep"),
+            Batch("import", "asan", 3000 if q else 120000, {}, "import/seeded-multi-fault"),
+        ]
+    if prop == "C15":
+        return [
+            Batch("import", "asan", 160 * (8 if q else 100), {"sweep": 1, "sweepseed": 2}, "import/single-fault-sweep"),
+            Batch("import", "asan", 2500 if q else 60000, {}, "import/seeded-multi-fault"),
+            Batch("equiv", "layout", 300 if q else 5000, {}, "equiv/analyser-issues"),
+        ]
     raise SystemExit("no check is defined for property " + prop)
 
 
 LEVELS = {"C07": "fault_enumeration"}
 
 RULES = {
+    "C07": "one case = one simulated run over a generated import graph (2-6 files in 1-3 directories; units and component imports, chains, diamonds, "
+           "shared import elements, encapsulation below imports) served by the simulated file layer. Sweep batch: every file x every single fault "
+           "(absent, unreadable, 7 truncation classes, failing reads in EOF and exception flavour, replaced by HTML / garbage / empty / directory / CellML 1.1, "
+           "every import reference broken, every import chain closed into a cycle, cycles of ordinary units) applied alone, resolved, flattened, repaired and "
+           "resolved again (fresh importer / removeAllModels / same importer). Seeded batch: multi-fault sequences, in-flight changes at open() yield points, two clients, "
+           "shared importers, stale libraries. Oracle = reference resolver over what the file layer actually served. distinct = distinct event-log fingerprints; "
+           "non-trivial = at least one fault was active on a needed file (or a flattening succeeded) while a verdict was compared.",
+    "C15": "one case = one simulated run of the import or equiv engine with the C15 monitor evaluated after every service call (counts, per-level accessors against the "
+           "level-filtered issue sequence, out-of-range indices, description, rule heading/URL, typed item) plus the failure-explained rule; once per run every value of "
+           "Issue::ReferenceRule and CellmlElementType is pushed through the metadata accessors. distinct = distinct event-log fingerprints; non-trivial as in the engine's own rule.",
     "C18": "one case = one simulated run: a generated connection graph (chains/stars/cycles/random/sparse over 4-24 variables in 2-8 components) "
            "placed by the simulated allocator (bump / reverse / seeded shuffle / four variables planted on a computed cache-key collision), analysed, "
            "then queried for all ordered pairs in a seeded order with 1-3 repetitions through AnalyserModel::areEquivalentVariables and "
@@ -274,6 +295,11 @@ RULES = {
 }
 
 ASSUMPTIONS = {
+    "C07": ["real-filesystem semantics below the hook (permissions, symlinks, path encodings) are not simulated; PATH_MAX is (opens of URLs longer than 4096 bytes fail)",
+            "files whose parser errors concern the imported entity itself are not generated (the expected verdict is then not determined by the property)",
+            "a reachable cycle of ordinary (non-imported) units makes the verdict undetermined: only termination, coherence and flatten-null-with-issue are checked there",
+            "an importer holding a stale library entry (file changed after it was cached) is only required to terminate and stay coherent"],
+    "C15": ["issues cannot be constructed through the public API: one translation unit of the simulator reads the private issue header to enumerate rule values"],
     "C18": ["the model is not edited after analysis (AnalyserModel documents that it caches a static model)",
             "libcellml, libxml2 2.13.9 and zlib run as real code; only the C++ allocator is simulated (layout flavour)",
             "the collision search models the key formula; each prediction is confirmed against the key the real method computed (hook H2)"],
